@@ -57,7 +57,7 @@ CLAIMED["C03"] = dict(
 
 CLAIMED["C15"] = dict(
     engine="E6+E1",
-    technique="static analysis: interprocedural cache-invalidation completeness (dependency writes vs reachable topologyHasChanged_() per public entry point), override/flag-source checks, call-graph reachability from rootAt, orientation agreement between the edge table and the node table written by one function (convention read from the link helpers), who-reads and who-writes rules on the id allocators (never compared with counts; assigned only under a comparison with their current value)",
+    technique="static analysis: interprocedural cache-invalidation completeness (dependency writes vs reachable topologyHasChanged_() per public entry point), override/flag-source checks, call-graph reachability from rootAt, orientation agreement between the edge table and the node table written by one function (convention read from the link helpers), who-reads and who-writes rules on the id allocators (never compared with counts; assigned only under a comparison with their current value); ordering rule unlink-before-link for members re-parenting one node",
     level=("Static rules decide, for every history: each public entry point of the tree/DAG containers and their observers that writes a dependency of the cached validity predicate reaches the virtual "
            "invalidator afterwards; the derived invalidator really overrides the base virtual and clears the flag; the flag only becomes true from isTree()/isDA(); re-rooting cannot erase edges, notify "
            "deletions or allocate edge ids on the graph itself; the edge reversal of re-rooting records the edge with the same orientation in both tables; the id allocators are never used as element counts and never move backwards. "
@@ -66,7 +66,7 @@ CLAIMED["C15"] = dict(
 
 CLAIMED["C13"] = dict(
     engine="E6+E5",
-    technique="static analysis: structural inference of memo keys and lazy flags, reset/cover rules on the CFG of every fireParameterChanged sibling, lazy-flag coverage via callee effect summaries, sibling protocol and copy/assign member agreement; reference-aliasing rule at call sites of update-by-scalar helpers (callee summaries: which const-reference scalars are read inside a loop that writes the container); accessor/view expression agreement of the transition models; argument-swap rule; path rule fill -> shift-by-maximum -> sumExp on log-domain vectors (helpers followed); who-permutes rule on the positional per-segment tables (reference locals resolved); disjoint write sets of the first- and second-derivative passes and reset-before-accumulate on their members",
+    technique="static analysis: structural inference of memo keys and lazy flags, reset/cover rules on the CFG of every fireParameterChanged sibling, lazy-flag coverage via callee effect summaries, sibling protocol and copy/assign member agreement; reference-aliasing rule at call sites of update-by-scalar helpers (callee summaries: which const-reference scalars are read inside a loop that writes the container); accessor/view expression agreement of the transition models; argument-swap rule; path rule fill -> shift-by-maximum -> sumExp on log-domain vectors (helpers followed); who-permutes rule on the positional per-segment tables (reference locals resolved); disjoint write sets of the first- and second-derivative passes and reset-before-accumulate on their members; memo-key reset by every method that re-runs the forward pass (setBreakPoints); who-writes rule on the served stationary vector (stored by a member that runs after updates)",
     level=("Static rules decide the history clause ('answers depend only on the current parameter values'): every notification that recomputes the forward pass resets the derivative memo keys and the backward "
            "lazy flags on the same paths; a method that marks a transition model up to date has computed every result served under that flag; the three likelihood classes follow one update protocol; "
            "copy constructor and operator= copy the same members. No call hands an update-by-scalar helper an element of the vector it updates; Pij(i,j) and the entry getPij() stores are the same expression. A vector of log-likelihoods is reduced by its maximum on every path before VectorTools::sumExp exponentiates it; the per-segment tables are never reordered in place. The second-derivative pass writes nothing the (memoised) first-derivative pass produced, and each pass resets what it accumulates."),
@@ -83,7 +83,7 @@ CLAIMED["C12"] = dict(
 
 CLAIMED["C09"] = dict(
     engine="E6+E1+E8",
-    technique="static analysis: rebuild-after-change must-pass on every notification/entry point, structural inference of parameter caches and constructor-derived state, clear-before-fill dominance, index-equals-size, throw-type typing, strict/inclusive polarity typing of booleans, lookup-loop coverage, copy/assign member agreement; shared copy rule (clone vs share of owning pointers); argument-swap rule; re-derivation must-pass from every cache reload; running (point, value) pair initialisation; accumulate-not-assign rule for weighted contributions of compound rebuilds",
+    technique="static analysis: rebuild-after-change must-pass on every notification/entry point, structural inference of parameter caches and constructor-derived state, clear-before-fill dominance, index-equals-size, throw-type typing, strict/inclusive polarity typing of booleans, lookup-loop coverage, copy/assign member agreement; shared copy rule (clone vs share of owning pointers); argument-swap rule; re-derivation must-pass from every cache reload; running (point, value) pair initialisation; accumulate-not-assign rule for weighted contributions of compound rebuilds (also spelled as map insertions whose result is discarded)",
     level=("Static rules decide, for every family and history: every accepted change (parameter, class count, median, restriction) reaches a rebuild after its last state write, compounds updating their components first; "
            "every member caching a parameter or derived from one in the constructor is refreshed before the rebuild; rebuilds clear before filling; no access at an index equal to the established size; only library "
            "exceptions; booleans handed to 'strict' parameters have strict polarity and class values used as bounds are included; value lookups compare every interior bound; copy constructor and operator= agree. copy constructor and operator= agree on cloning the domain interval. A member derived from a parameter cache is re-derived on every path on which the cache was reloaded; a running partial expectation starts as the function of the starting bound; a mixture adds up the weighted class probabilities of its components."),
@@ -124,14 +124,14 @@ CLAIMED["C11"] = dict(
 
 CLAIMED["C19"] = dict(
     engine="E5+E1",
-    technique="static analysis: clone agreement of the parameter formulas in constructor vs setFrequencies under renaming, size-guard dominance for argument indexing, constraint attachment on every created Parameter, no-early-exit rule on the loops filling the probability vector; coverage rule for countdown loops storing into member vectors; argument-swap rule",
+    technique="static analysis: clone agreement of the parameter formulas in constructor vs setFrequencies under renaming, size-guard dominance for argument indexing, constraint attachment on every created Parameter, no-early-exit rule on the loops filling the probability vector; coverage rule for countdown loops storing into member vectors; argument-swap rule; control-dependence of every probability-derived parameter value on the coding selector method_",
     level=("Narrow structural claim: per coding the two implementations of 'probabilities -> parameters' compute the same formulas; the setter's argument is indexed only under a dimension test; every simplex "
            "parameter carries the allowNull-selected unit-interval constraint; the notification fills every probability entry and gives the last one the remaining mass. A countdown loop i > 0 stores at [i - 1] (element 0 is not skipped)."),
     note=TB + "Not decided: normalisation / inversion / injectivity as values, the binary coding's bit arithmetic, OrderedSimplex ordering, consistency of literal parameters in the dimension constructor.")
 
 CLAIMED["C17"] = dict(
     engine="E5+E1",
-    technique="static analysis: writer/reader table agreement extracted from the syntax tree (family names, argument keys, parameter names), last-write rule for recorded separators in the tokenisers, alpha-equivalence of the three wildcard-matcher clones; argument/parameter name agreement at forwarding calls; family names tested against getName() exist",
+    technique="static analysis: writer/reader table agreement extracted from the syntax tree (family names, argument keys, parameter names), last-write rule for recorded separators in the tokenisers, alpha-equivalence of the three wildcard-matcher clones; argument/parameter name agreement at forwarding calls; family names tested against getName() exist; component-number agreement between the reader's nested-argument names and the mixture's own prefixes; sibling agreement on forwarding versus defaulting a same-named option",
     level=("Narrow structural claim about the round-trip clauses: everything the distribution writer can emit (family names, 'key=' arguments) is understood by the reader and the reader's parameter keys exist; "
            "tokenisers record a separator only once the scan position is final and never store a continued token without its separator; the three copies of the '*' matcher are the same algorithm. Same-typed parameters (decimal separator, exponent marker) are forwarded to their own positions."),
     note=TB + "Not decided: numeric round trips, the decimal-number grammar (hand-written automaton), nested tokenising, glob semantics of the shared algorithm, variable-resolution fixed point, delimited-table round trip.")
